@@ -16,8 +16,21 @@ UNITS = [
          remove_bodies=[f for f in _ss if f != "bidib_state_bm_occ"], extra_flags=["--nondet-static", "--unwind", "12"], covers=2, min_obligations=8, timeout=200,
          stubbed_contracts=["bidib_state_get_segment_state_ref_by_nodeaddr", "bidib_state_update_train_available", "bidib_state_log_train_detect"]),
 ] + [
+    Unit(name="C07." + n, src="units/C07/bm_addr.c", defines=defs, functions=fns, props=pr, no_dfcc=True, kind="bounded", bound=bound,
+         remove_bodies=[f for f in _ss if f not in fns], extra_flags=["--nondet-static", "--unwind", "14"], covers=3, min_obligations=6, timeout=600,
+         stubbed_contracts=["bidib_state_get_segment_state_ref* (lookup: NULL or an element)", "bidib_state_update_train_available (ghost: counts calls, samples the spec at call time)",
+                            "bidib_state_get_segment_state / bidib_state_free_single_segment_state_intern (copy / release, counted)"],
+         note="logging arguments evaluated; message bytes arbitrary; the byte buffers are allocated with exactly the length the dispatcher guarantees, so over-reads are reported")
+    for n, defs, fns, pr, bound in [
+        ("bm_address", ["VP_H_BM_ADDRESS", "VP_GLIB_FIXED_CAP=3"], ["bidib_state_bm_address", "bidib_state_bm_address_log_changes", "bidib_state_log_train_detect"], ["C07", "C08"],
+         "at most 3 reported addresses, segment previously lists at most 2 (loops unwound completely for these sizes)"),
+        ("bm_multiple", ["VP_H_BM_MULTIPLE", "VP_MAXBITS=12", "VP_GLIB_FIXED_CAP=3"], ["bidib_state_bm_multiple", "bidib_state_log_train_detect"], ["C07", "C08"],
+         "at most 12 reported bits (two data bytes), any base number; one watched segment number (arbitrary) + a sink for all others; segment previously lists at most 2 addresses"),
+        ("bm_confidence", ["VP_H_BM_CONFIDENCE"], ["bidib_state_bm_confidence"], ["C07"], "board with at most 2 segments"),
+    ]
+] + [
     Unit(name="C07." + n, src="units/C07/setters2.c", defines=[d], functions=[fn], props=pr, no_dfcc=True, kind=kind, bound=bound,
-         remove_bodies=[f for f in _ss if f != fn], extra_flags=["--nondet-static", "--unwind", "14"], covers=2, min_obligations=6, timeout=300,
+         remove_bodies=[f for f in _ss if f != fn], extra_flags=["--nondet-static", "--unwind", "34"], covers=2, min_obligations=6, timeout=300,
          stubbed_contracts=["bidib_state_get_*_ref* (lookup: NULL or an arbitrary element)"], note="logging arguments evaluated; wire values arbitrary")
     for n, d, fn, pr, kind, bound in [
         ("boost_state", "VP_H_BOOST_STATE", "bidib_state_boost_state", ["C07"], "proof", ""),
@@ -25,6 +38,13 @@ UNITS = [
         ("cs_drive_ack", "VP_H_CS_DRIVE_ACK", "bidib_state_cs_drive_ack", ["C07"], "proof", ""),
         ("cs_accessory_ack", "VP_H_CS_ACCESSORY_ACK", "bidib_state_cs_accessory_ack", ["C07"], "proof", ""),
         ("lc_wait", "VP_H_LC_WAIT", "bidib_state_lc_wait", ["C07"], "proof", ""),
+        ("cs_accessory_manual", "VP_H_CS_ACC_MANUAL", "bidib_state_cs_accessory_manual", ["C07"], "proof", ""),
+        ("cs_accessory", "VP_H_CS_ACC", "bidib_state_cs_accessory", ["C07", "C09"], "proof", ""),
+        ("bm_speed", "VP_H_BM_SPEED", "bidib_state_bm_speed", ["C07"], "proof", ""),
+        ("bm_dyn_state", "VP_H_BM_DYN_STATE", "bidib_state_bm_dyn_state", ["C07"], "proof", ""),
+        ("cs_drive", "VP_H_CS_DRIVE", "bidib_state_cs_drive", ["C07", "C09"], "proof", ""),
+        ("accessory_state", "VP_H_ACCESSORY_STATE", "bidib_state_accessory_state", ["C07"], "bounded", "accessory with 1 or 2 configured aspects (the parser rejects an empty list; assumed invariant) (arbitrary distinct values); loop unwound completely"),
+        ("lc_stat", "VP_H_LC_STAT", "bidib_state_lc_stat", ["C07"], "bounded", "peripheral with at most 2 configured aspects (arbitrary distinct values); loop unwound completely"),
         ("boost_diagnostic", "VP_H_DIAGNOSTIC", "bidib_state_boost_diagnostic", ["C07", "C12"], "bounded", "diagnostic list of at most 6 bytes (3 key/value pairs), every byte arbitrary; loop unwound completely for that size"),
         ("vendor", "VP_H_VENDOR", "bidib_state_vendor", ["C12"], "bounded", "vendor data of 2..12 bytes, every byte (incl. the two embedded lengths) arbitrary"),
     ]
